@@ -19,10 +19,11 @@ import kernelcase as K
 MODELS = ["Base/Corr.vo", "Base/RealEnc.vo", "Base/Fops.vo", "Base/QMat.vo", "Base/SymReal.vo", "Gen/KernelPyx.vo", "Model/KernelRun.vo"]
 
 HEADER = """From Coq Require Import QArith ZArith List Bool.
+From Bignums Require Import BigQ.
 From TJ Require Import Base.Corr Base.RealEnc Base.Fops Base.QMat Base.SymReal Gen.KernelPyx Model.KernelRun.
 Import ListNotations. Close Scope Z_scope. Open Scope Q_scope.
-Definition check_impl (c : kcase * kobs) : bool := model_vs_impl (fst c) (snd c).
-Definition check_spec (c : kcase * kobs) : bool := model_vs_spec (fst c).
+
+
 """
 
 
@@ -68,15 +69,15 @@ def run_cases(ctx, specs, prop="C01", sig="C01:kernel", do_spec=True):
         terms.append(f"({K.kcase_term(spec, out)}, {K.kobs_term(out)})")
         kept.append(spec)
         nt += spec["theta"]["s"] > 0 or spec["n_off"] > 0 or spec["n_poly"] > 1 or any(p["mu"] != 0 for p in spec["lin"])
-    bad = ctx.coq_check_cases(prop.lower() + "_impl", HEADER, terms, "check_impl", shard=6)
-    for i in bad:
-        ctx.fail("correspondence", sig, "generated kernel model (Gen/KernelPyx.v, from the .pyx) and the rebuilt binary disagree (ll / a / Ainv) "
-                 f"[s={kept[i]['theta']['s']}, K prior {kept[i]['kprior']}, offsets {kept[i]['n_off']}, poly {kept[i]['n_poly']}]", case=kept[i])
-    if do_spec:
-        bad = ctx.coq_check_cases(prop.lower() + "_spec", HEADER, terms, "check_spec", shard=6)
-        for i in bad:
-            ctx.fail("correspondence", sig, "generated kernel model does not compute the specification (chi^2, |det B|, B, B^-1, a, Ainv) on this input "
-                     f"[s={kept[i]['theta']['s']}, K prior {kept[i]['kprior']}, offsets {kept[i]['n_off']}, poly {kept[i]['n_poly']}, P prior in {kept[i]['P_unit']}]", case=kept[i])
+    codes = ctx.coq_check_codes(prop.lower() + "_k", HEADER, terms, "fun c => check_code (fst c) (snd c)", shard=4, timeout=1500)
+    for i, code in enumerate(codes):
+        tagtxt = (f"[s={kept[i]['theta']['s']}, K prior {kept[i]['kprior']}, offsets {kept[i]['n_off']}, poly {kept[i]['n_poly']}, "
+                  f"P prior in {kept[i]['P_unit']}, P0 {kept[i]['P0']}, data in {kept[i]['data_unit']}]")
+        if code & 1:
+            ctx.fail("correspondence", sig, "generated kernel model (Gen/KernelPyx.v, from the .pyx) and the rebuilt binary disagree (ll / a / Ainv) " + tagtxt, case=kept[i])
+        if do_spec and code & 2:
+            ctx.fail("correspondence", sig, "generated kernel model does not compute the specification (chi^2, |det B|, B, B^-1, a, Ainv, ll) on this input " + tagtxt,
+                     case=kept[i])
     if kept:
         ctx.samples.append({"input": {k: kept[0][k] for k in ("n_poly", "n_off", "data_unit", "kprior", "P_unit", "P0", "theta")}, "coq_case": terms[0][:500]})
     return len(specs), nt
